@@ -975,3 +975,35 @@ func ReflectSelect(site string, cases []reflect.SelectCase) (int, reflect.Value,
 	return reflect.Select(cases)
 }
 
+// ---- the clock as a seam ----
+//
+// time.Now() and time.Since() of the instrumented code go through here. Inside a bubble
+// that is the bubble's fake clock anyway; for code that runs outside one (the snapping
+// library under snapsim) an engine can freeze the clock or let it race, and demand the
+// same answer.
+
+var (
+	clockMode  atomic.Int32 // 0: the real (or the bubble's) clock, 1: frozen, 2: racing
+	clockTicks atomic.Int64
+	clockReads atomic.Int64
+	clockBase  = time.Unix(1700000000, 0)
+)
+
+func SetClock(mode int) { clockMode.Store(int32(mode)); clockTicks.Store(0) }
+
+// ClockReads: how often the instrumented code has read the clock so far.
+func ClockReads() int64 { return clockReads.Load() }
+
+func Now(site string) time.Time {
+	clockReads.Add(1)
+	switch clockMode.Load() {
+	case 1:
+		return clockBase
+	case 2:
+		return clockBase.Add(time.Duration(clockTicks.Add(1)) * 37 * time.Millisecond)
+	}
+	return time.Now()
+}
+
+func Since(site string, t time.Time) time.Duration { return Now(site).Sub(t) }
+
